@@ -430,6 +430,12 @@ func (l *Lexer) readRawString() string {
 				result.WriteByte('`')
 				continue
 			}
+			if nextChar == '\\' {
+				// an escaped backslash: keep the pair, the second one escapes nothing
+				l.ReadChar()
+				result.WriteString("\\\\")
+				continue
+			}
 		}
 		if l.CurrentChar == '`' {
 			break
